@@ -328,6 +328,55 @@ func c08Extend(c *fw.Ctx, idx int) {
 			return
 		}
 	}
+	// ... or from a box the caller made with SetCoords / Set / Clone out of those
+	// numbers: however a box came to hold its corners, Extend treats it the same
+	for k, ord := range orders {
+		if k >= 12 {
+			break
+		}
+		how := []string{"SetCoords", "Set", "SetCoords+Clone", "Set twice"}[r.Intn(4)]
+		c.SetInput(map[string]any{"start": "a box given the first geometry's corners by " + how, "geometries": strings.Join(desc, " | "), "order": fmt.Sprint(ord)})
+		var b *geom.Bounds
+		skip := false
+		if c.Guard("panic", func() {
+			bb := ts[ord[0]].Bounds()
+			st := bb.Layout().Stride()
+			if st == 0 {
+				skip = true
+				return
+			}
+			lo, hi := make([]float64, st), make([]float64, st)
+			for i := 0; i < st; i++ {
+				lo[i], hi[i] = bb.Min(i), bb.Max(i)
+				if lo[i] > hi[i] {
+					skip = true // SetCoords orders the corners; an empty dimension cannot be written with it
+					return
+				}
+			}
+			switch how {
+			case "SetCoords":
+				b = geom.NewBounds(bb.Layout()).SetCoords(lo, hi)
+			case "Set":
+				b = geom.NewBounds(bb.Layout()).Set(append(append([]float64{}, lo...), hi...)...)
+			case "SetCoords+Clone":
+				b = geom.NewBounds(bb.Layout()).SetCoords(hi, lo).Clone()
+			default:
+				b = geom.NewBounds(bb.Layout()).Set(append(append([]float64{}, hi...), hi...)...).Set(append(append([]float64{}, lo...), hi...)...)
+			}
+			for _, i := range ord[1:] {
+				b = b.Extend(ts[i])
+			}
+		}) {
+			return
+		}
+		if skip {
+			continue
+		}
+		c.Count("extend_from_a_box_made_by_" + how)
+		if !c08Compare(c, fmt.Sprintf("box of geometry %d made by %s, extended in order %v", ord[0], how, ord[1:]), b, want2, sb, anyc) {
+			return
+		}
+	}
 	// none of this may have touched the geometries themselves
 	for i, g := range gs {
 		if !expectGeom(c, fmt.Sprintf("geometry %d after its bounds were taken and extended", i), ts[i], g, model.Opts{}) {
@@ -444,6 +493,125 @@ func c08Overlap(c *fw.Ctx, idx int) {
 	}
 }
 
+// (d) collections that change after they were put together: layouts declared with
+// SetLayout at some point, members pushed into nested collections afterwards.
+// Whatever a collection declares, its bounds are those of the coordinates it holds now.
+func c08CollHistory(c *fw.Ctx, idx int) {
+	r := c.R
+	g := gen.Collection(r, gen.SmallInt, gen.CollOpts{
+		Shape:   gen.ShapeOpts{CoordFn: c08NoNaN, MaxPts: 4},
+		Layouts: gen.StdLayouts, MixLayouts: r.Bool(), MaxDepth: 3, MaxMembers: 3, WithRings: true,
+	}, 0)
+	root, ok := g.BuildFlat().(*geom.GeometryCollection)
+	if !ok {
+		return
+	}
+	var hist []string
+	steps := r.Range(1, 6)
+	for s := 0; s <= steps; s++ {
+		if s > 0 {
+			// pick a collection node (model and geometry side by side)
+			mn, gn := g, root
+			path := "root"
+			for d := 0; d < 4; d++ {
+				var subs []int
+				for i, m := range mn.Members {
+					if m.Kind == model.Collection {
+						subs = append(subs, i)
+					}
+				}
+				if len(subs) == 0 || r.Chance(1, 3) {
+					break
+				}
+				i := subs[r.Intn(len(subs))]
+				mn, gn = mn.Members[i], gn.Geom(i).(*geom.GeometryCollection)
+				path += fmt.Sprintf(".%d", i)
+			}
+			switch r.Intn(3) {
+			case 0:
+				l := gn.Layout()
+				if r.Chance(1, 4) {
+					l = gen.StdLayouts[r.Intn(4)]
+				}
+				var err error
+				if c.Guard("panic", func() { err = gn.SetLayout(l) }) {
+					return
+				}
+				hist = append(hist, fmt.Sprintf("%s.SetLayout(%s) err=%v", path, l, err))
+				if err == nil && l != geom.NoLayout {
+					mn.Fixed, mn.Layout = true, l
+					c.Count("collection_layouts_declared_after_the_fact")
+				}
+			default:
+				p := gen.Shape(r, gen.Kinds7[r.Intn(len(gen.Kinds7))], gen.StdLayouts[r.Intn(4)], gen.SmallInt, gen.ShapeOpts{CoordFn: c08NoNaN, MaxPts: 3})
+				var pm *model.G = p
+				var pt geom.T = p.BuildFlat()
+				if r.Chance(1, 5) {
+					pm = &model.G{Kind: model.Collection, Members: []*model.G{p}}
+					pt = pm.BuildFlat()
+				}
+				var err error
+				if c.Guard("panic", func() { err = gn.Push(pt) }) {
+					return
+				}
+				hist = append(hist, fmt.Sprintf("%s.Push(%s) err=%v", path, pm, err))
+				if err == nil {
+					mn.Members = append(mn.Members, pm)
+					c.Count("members_pushed_into_nested_collections")
+				}
+			}
+		}
+		c.SetInput(map[string]any{"collection": g.String(), "history": strings.Join(hist, "; ")})
+		sb := newSemBox(104)
+		sb.addModel(g)
+		want := g.CollectionLayout()
+		stale := false
+		var walk func(m *model.G)
+		walk = func(m *model.G) {
+			if m.Kind == model.Collection {
+				for _, x := range m.Members {
+					if m.Fixed && x.CollectionLayout() != m.Layout {
+						stale = true
+					}
+					walk(x)
+				}
+				return
+			}
+			want = joinLayout(want, m.Layout)
+		}
+		walk(g)
+		if stale {
+			c.Count("bounds_of_collections_whose_declared_layout_is_out_of_date")
+		}
+		var b, b2 *geom.Bounds
+		if c.Guard("panic", func() {
+			b = root.Bounds()
+			b2 = geom.NewBounds(geom.NoLayout).Extend(root)
+		}) {
+			return
+		}
+		if !c08Compare(c, "Bounds() after "+fmt.Sprint(len(hist))+" steps", b, want, sb, !g.IsEmpty()) {
+			return
+		}
+		want2 := geom.NoLayout
+		var leaves func(m *model.G)
+		leaves = func(m *model.G) {
+			if m.Kind == model.Collection {
+				for _, x := range m.Members {
+					leaves(x)
+				}
+				return
+			}
+			want2 = joinLayout(want2, m.Layout)
+		}
+		leaves(g)
+		if !c08Compare(c, "NewBounds(NoLayout).Extend(collection) after "+fmt.Sprint(len(hist))+" steps", b2, want2, sb, !g.IsEmpty()) {
+			return
+		}
+	}
+	c.Distinct("collhist/" + g.Sig())
+}
+
 func init() {
 	fw.Register(&fw.Monitor{
 		ID:     "C08",
@@ -454,6 +622,7 @@ func init() {
 			{Name: "geometries", Quick: 150000, Thorough: 3000000, Run: c08Geoms},
 			{Name: "extend-orders", Quick: 15000, Thorough: 300000, Run: c08Extend},
 			{Name: "overlaps", Quick: 100000, Thorough: 3000000, Run: c08Overlap},
+			{Name: "collection-histories", Quick: 40000, Thorough: 1000000, Run: c08CollHistory},
 		},
 		Require: []string{"collections", "nested_collections", "collections_mixing_layouts", "coordinate_free", "permutation_sets_fully_enumerated", "extend_mixing_xyz_and_xym", "overlap_true", "overlap_false", "overlap_touching", "overlap_with_empty_box", "overlap_with_partly_empty_box", "overlaps_point_true", "overlaps_point_false"},
 	})
